@@ -22,3 +22,12 @@ void h_own_dtor(void) { OWNT *o; own_dtor(o); __CPROVER_assert(0, "SENTINEL reac
 #ifdef CV_HAS_mx_try_lock
 void h_try_lock(void) { OWNT *r; MX *m; mx_try_lock(r, m); __CPROVER_assert(0, "SENTINEL reachable"); }
 #endif
+#ifdef CV_HAS_mxaw_ready
+void h_mxaw_ready(void) { MXAW *a; mxaw_ready(a); __CPROVER_assert(0, "SENTINEL reachable"); }
+#endif
+#ifdef CV_HAS_mxaw_suspend
+void h_mxaw_suspend(void) { MXAW *a; cv_i8 *h; mxaw_suspend(a, h); __CPROVER_assert(0, "SENTINEL reachable"); }
+#endif
+#ifdef CV_HAS_mxaw_resume
+void h_mxaw_resume(void) { OWNT *r; MXAW *a; mxaw_resume(r, a); __CPROVER_assert(0, "SENTINEL reachable"); }
+#endif
